@@ -227,6 +227,13 @@ def verify_contract(c, timeout_ms=10000, explore_timeout_ms=3000):
         for r in results:
             rep.obligations.extend(r.obligations)
         rep.paths = len(results)
+        # vacuity guard: a contract that states a result must see at least one path that RETURNS and
+        # reaches its postcondition; otherwise every obligation it generated is about raising paths
+        # only and "all discharged" would say nothing about the result (the dropped-empty-path defect
+        # of round 7 looked exactly like this).  Undecided, never a violation.
+        if c.kind != 'lemma' and (c.returns is not None or c.ensures is not None) and not c.stop_after \
+                and not any(getattr(ob, 'kind', None) == 'post' for ob in rep.obligations):
+            rep.error = 'unsupported: vacuous - no explored path returns and reaches the postcondition'
     except Unsupported as e:
         rep.error = f'unsupported: {e}'
     except RecursionError:
